@@ -46,7 +46,7 @@ package inode
 //@ specfunc inodeInv(ip *Inode) = ip != nil && ip.Inum < 32768 && blksValid(ip) && shapeOK(ip)
 //@ specfunc locked(ip *Inode) = ip != nil && held[ip.Inum]
 
-//@ spec pow
+//@ spec pow(level)
 //@   props C02 C19 C11
 //@   requires level <= 2
 //@   ensures [Fn4-pow] (level == 0 ==> result == 1) && (level == 1 ==> result == 512) && (level == 2 ==> result == 262144) @C02 @C19
@@ -57,7 +57,7 @@ package inode
 //@   props C02 C19
 //@   ensures [Q3-maxfilesize] result == (8 + 512*512) * 4096 @C19 @C02
 
-//@ spec (*Inode).InitInode
+//@ spec (*Inode).InitInode(ip, inum, kind)
 //@   props C08 C10 C14 C11
 //@   requires locked(ip) && ip.Inum == inum
 //@   modifies ip.Inum, ip.Kind, ip.Nlink, ip.Gen, ip.Atime, ip.Mtime, dirtyinum, nldec
@@ -72,13 +72,13 @@ package inode
 //@   ensures [H4-rootgen] fresh(result) && result.Inum == 1 && result.Gen == 1 && result.Kind == 2 && result.Nlink == 1 @C08 @C15
 //@   ensures len(result.blks) == 10 && result.Size == 0 && result.ShrinkSize == 0 && (forall k uint64 :: k < 10 ==> result.blks[k] == 0)
 
-//@ spec (*Inode).MkFattr
+//@ spec (*Inode).MkFattr(ip)
 //@   props C02 C14 C03
 //@   requires [L4-underlock] locked(ip) @C14 @C03
 //@   ensures [Fn7-fattr] result.Ftype == ip.Kind && uint64(result.Size) == ip.Size && uint64(result.Used) == ip.Size && uint64(result.Fileid) == ip.Inum && result.Nlink == 1 && result.Mode == 511 @C02
 //@   ensures [Fn7-times] result.Atime.Seconds == ip.Atime.Seconds && result.Atime.Nseconds == ip.Atime.Nseconds && result.Mtime.Seconds == ip.Mtime.Seconds && result.Mtime.Nseconds == ip.Mtime.Nseconds @C02
 
-//@ spec (*Inode).DecLink
+//@ spec (*Inode).DecLink(ip, atxn)
 //@   props C05 C04 C14
 //@   requires locked(ip) && inodeInv(ip) && atxnInv(atxn) && lastst == 0
 //@   modifies ip.Nlink, dirtyinum, wroteinum, nldec
@@ -87,7 +87,7 @@ package inode
 
 // S2 (C10): the on-disk inode codec. Encode lays the fields out little-endian
 // at fixed offsets of a fresh 128-byte buffer; Decode reads the same offsets.
-//@ spec (*Inode).Encode
+//@ spec (*Inode).Encode(ip)
 //@   props C10 C11 C14
 //@   requires locked(ip) && len(ip.blks) == 10
 //@   allocates []uint8, marshal.Enc, cell:uint64
@@ -96,7 +96,7 @@ package inode
 //@   ensures [S2-times] le32(result, 32) == uint32(ip.Atime.Seconds) && le32(result, 36) == uint32(ip.Atime.Nseconds) && le32(result, 40) == uint32(ip.Mtime.Seconds) && le32(result, 44) == uint32(ip.Mtime.Nseconds) @C10
 //@   ensures [S2-blks] forall k uint64 :: k < 10 ==> le64(result, 48 + 8*k) == ip.blks[k] @C10
 
-//@ spec Decode
+//@ spec Decode(buf, inum)
 //@   props C10 C11
 //@   requires buf != nil && len(buf.Data) >= 128
 //@   allocates inode.Inode, []uint64, cell:uint64
@@ -110,7 +110,7 @@ package inode
 // Transaction-side preconditions shared by the inode operations.
 //@ specfunc txnOK(atxn *alloctxn.AllocTxn) = atxnInv(atxn) && listsValid(atxn) && lastst == 0
 
-//@ spec (*Inode).WriteInode
+//@ spec (*Inode).WriteInode(ip, atxn)
 //@   props C10 C01 C04 C11 C14
 //@   requires locked(ip) && atxnInv(atxn) && lastst == 0
 //@   requires [I1-store] inodeInv(ip) @C04 @C11
@@ -121,7 +121,7 @@ package inode
 //@   ensures [S1-synced] !dirtyinum[ip.Inum] && (forall j uint64 :: j != ip.Inum ==> dirtyinum[j] == old(dirtyinum)[j]) @C10
 //@   ensures [A2-written] wroteinum[ip.Inum] && (forall j uint64 :: old(wroteinum)[j] ==> wroteinum[j]) @C09
 
-//@ spec (*Inode).FreeInode
+//@ spec (*Inode).FreeInode(ip, atxn)
 //@   props C08 C05 C10 C11 C14
 //@   requires locked(ip) && inodeInv(ip) && txnOK(atxn)
 //@   requires [valid] validInum(ip.Inum) @C04 @C11
@@ -136,7 +136,7 @@ package inode
 // blocks; every pointer it follows or stores is null or in the data region
 // (I1), new blocks come from AllocBlock only (Z2), and it terminates.
 //@ specfunc inRange(level uint64, off uint64) = (level == 0 && off < 1) || (level == 1 && off < 512) || (level == 2 && off < 262144)
-//@ spec (*Inode).indbmap
+//@ spec (*Inode).indbmap(ip, atxn, root_, level, off)
 //@   props C04 C02 C11 C12 C19 C06
 //@   requires ip != nil && txnOK(atxn)
 //@   requires [I1-root] root_ == 0 || validBlk(root_) @C04
@@ -150,7 +150,7 @@ package inode
 //@   ensures [Fn4-root] root_ != 0 ==> result1 == root_ @C02
 //@   ensures listsValid(atxn) && listsStable(atxn)
 
-//@ spec (*Inode).bmap
+//@ spec (*Inode).bmap(ip, atxn, bn)
 //@   props C04 C02 C10 C11 C12 C19
 //@   requires locked(ip) && inodeInv(ip) && txnOK(atxn)
 //@   requires [Q3-range] bn < 8 + 512 + 512*512 @C19 @C11
@@ -168,7 +168,7 @@ package inode
 //@ specfunc sizeOK(ip *Inode) = ip.Size <= 1073774592
 //@ specfunc othersClean(ip *Inode) = forall j uint64 :: j != ip.Inum ==> dirtyinum[j] == old(dirtyinum)[j]
 
-//@ spec (*Inode).Write
+//@ spec (*Inode).Write(ip, atxn, offset, count, dataBuf)
 //@   props C02 C10 C11 C19 C04 C09
 //@   requires locked(ip) && inodeInv(ip) && txnOK(atxn)
 //@   preserves [allocInv] allocInv() @C15 @C04
@@ -196,7 +196,7 @@ package inode
 //@   loop 1 decreases nbytes - b
 //@   loop 1 invariant [ibits] abits[theIalloc] == old(abits)[theIalloc]
 
-//@ spec (*Inode).Read
+//@ spec (*Inode).Read(ip, atxn, offset, bytesToRead)
 //@   props C02 C10 C11 C04
 //@   requires locked(ip) && inodeInv(ip) && txnOK(atxn)
 //@   requires [count32] bytesToRead <= 4294967296 @C11
@@ -228,7 +228,7 @@ package inode
 // ShrinkSize one block at a time, frees what it passes and persists the
 // inode in the same transaction, so every prefix of shrink transactions
 // leaves a consistent inode.
-//@ spec (*Inode).freeIndex
+//@ spec (*Inode).freeIndex(ip, op, index)
 //@   props C05 C04 C12 C11 C10
 //@   requires locked(ip) && inodeInv(ip) && txnOK(op)
 //@   requires [index] index < 10 @C11
@@ -239,7 +239,7 @@ package inode
 //@   ensures [I1-inode] inodeInv(ip) @C04
 //@   ensures listsValid(op) && listsStable(op) && othersClean(ip)
 
-//@ spec (*Inode).indshrink
+//@ spec (*Inode).indshrink(ip, op, root, level, bn)
 //@   props C05 C04 C12 C11 C06
 //@   requires ip != nil && txnOK(op)
 //@   requires [I1-root] root == 0 || validBlk(root) @C04
@@ -253,7 +253,7 @@ package inode
 //@   ensures [F3-exact] root != 0 ==> result == ite(level == 0 || bn == 0, root, 0) @C05
 //@   ensures listsValid(op) && listsStable(op)
 
-//@ spec (*Inode).Shrink
+//@ spec (*Inode).Shrink(ip, op)
 //@   props C05 C01 C02 C04 C10 C11 C06 C12
 //@   requires locked(ip) && inodeInv(ip) && txnOK(op)
 //@   allocates buf.Buf, marshal.Enc, marshal.Dec, cell:uint64, []uint8
@@ -267,7 +267,7 @@ package inode
 //@   loop 0 invariant inodeInv(ip) && listsValid(op) && listsStable(op) && ip.ShrinkSize <= old(ip.ShrinkSize) && ip.Size == old(ip.Size) && othersClean(ip) && (ip.ShrinkSize >= (ip.Size + 4095) / 4096 || ip.ShrinkSize == old(ip.ShrinkSize))
 //@   loop 0 decreases ip.ShrinkSize
 
-//@ spec (*Inode).zeroTail
+//@ spec (*Inode).zeroTail(ip, atxn, sz)
 //@   props C12 C11 C04 C10
 //@   requires locked(ip) && inodeInv(ip) && txnOK(atxn)
 //@   requires [below] sz < ip.Size @C11
@@ -284,7 +284,7 @@ package inode
 //@   loop 0 decreases 4096 - b
 //@   loop 0 invariant [ibits] abits[theIalloc] == old(abits)[theIalloc]
 
-//@ spec (*Inode).Resize
+//@ spec (*Inode).Resize(ip, atxn, sz)
 //@   props C05 C02 C04 C10 C11 C12 C19
 //@   requires locked(ip) && inodeInv(ip) && txnOK(atxn)
 //@   requires [Q3-max] sz <= 1073774592 @C19 @C11
